@@ -47,6 +47,12 @@ fn render_list<I: Iterator<Item = Entry>>(it: I) -> String {
     format!("[{}]", v.join(","))
 }
 
+/// `putpat <path> <n> <salt>` = `put <path> <hex of pattern(n, salt)>` (keeps huge histories small)
+pub fn expand_putpat(line: &str) -> String {
+    let t: Vec<&str> = line.split_whitespace().collect();
+    format!("put {} {}", t[1], hex(&pattern(t[2].parse().unwrap(), t[3].parse().unwrap())))
+}
+
 pub fn dump_generic<F: Read + Seek>(comp: &mut CompoundFile<F>) -> String {
     let entries: Vec<Entry> = comp.walk().collect();
     let mut s = format!("ok {}", render_list(entries.iter().cloned()));
@@ -115,6 +121,8 @@ impl Real {
     }
 
     fn exec_inner(&mut self, line: &str) -> String {
+        let expanded;
+        let line = if line.starts_with("putpat ") { expanded = expand_putpat(line); &expanded } else { line };
         let t: Vec<&str> = line.split_whitespace().collect();
         let p = |s: &str| dec(s);
         match t.as_slice() {
@@ -502,6 +510,10 @@ impl RefModel {
     /// Expected result of one op according to the abstract model, or `None` where the property
     /// does not fix the result (handles, snapshots, unrepresentable instants).
     pub fn apply(&mut self, line: &str) -> Option<String> {
+        if line.starts_with("putpat ") {
+            let e = expand_putpat(line);
+            return self.apply(&e);
+        }
         let t: Vec<&str> = line.split_whitespace().collect();
         match t.as_slice() {
             ["create", _] => {
